@@ -1,60 +1,60 @@
 //@@ module: chess/san/san_writer.rs
 //@@ tag: c18
-//@@ needs: chess__board@sym.rs chess__game@sym.rs
-// The REAL required_ambiguity_resolution on a real Game (fully symbolic board), against the CONTRACT of its callee
-// `Game::moves()` (kani::stub): an ARBITRARY duplicate-free list of moves whose source squares are occupied -- what C01
-// proves about the generator.  Whatever else the function consults (attack tables, board accessors) is the real code.
+//@@ needs: chess__board@sym.rs
+// Body of required_ambiguity_resolution (verbatim from /repo on every run) on a ghost `Game` that carries a REAL Board
+// (fully symbolic) and the side to move, against the contract of its callee `game.moves()`: an ARBITRARY duplicate-free
+// list of moves (what C01 proves about the generator).  Everything else the function consults is the real code.
 use crate::chess::board::verif_kani_sym as sym;
-use crate::chess::game::verif_kani_symgame as symgame;
 use crate::chess::moves::MoveList;
+use crate::chess::piece::Piece;
 use crate::chess::square::Square;
 use crate::verif_support::geo;
 
 pub const LIST_N: usize = 5;
-const DUMMY: Move = Move::quiet(Square::from_index(0), Square::from_index(1));
-pub static mut LEGAL: [Move; LIST_N] = [DUMMY; LIST_N];
-pub static mut LEGAL_N: usize = 0;
-
-/// CONTRACT of Game::moves(): "the legal moves of the position" = this list
-fn moves_contract(_g: &Game) -> MoveList {
-    let mut l = MoveList::new();
-    unsafe {
+/// ghost `Game`: a REAL Board (fully symbolic) and the side to move, plus the list its `moves()` contract hands out
+pub struct Game {
+    pub board: crate::chess::board::Board,
+    pub player: crate::chess::player::Player,
+    pub list: [Move; LIST_N],
+    pub n: usize,
+}
+impl Game {
+    pub fn moves(&self) -> MoveList {
+        let mut l = MoveList::new();
         let mut i = 0;
         while i < LIST_N {
-            if i < LEGAL_N {
-                l.push(LEGAL[i]);
+            if i < self.n {
+                l.push(self.list[i]);
             }
             i += 1;
         }
+        l
     }
-    l
 }
+
+//@@ body: chess/san/san_writer.rs :: fn required_ambiguity_resolution => required_ambiguity_resolution__body
 
 //@ obligation: C18.disambiguation.minimal
 //@ domain: bounded(<= 5 legal moves in the position's list)
 //@ functions: chess/san/san_writer.rs::required_ambiguity_resolution
 //@ timeout: 2400
 //@ mem_gb: 10
-//@ note: for every board, every duplicate-free LEGAL-move list of up to 5 moves (every mover square occupied) and every listed move: with RIVALS = the other LEGAL moves of the same piece kind to the same square, the chosen disambiguation (none / file / rank / both) matches NO rival -- so piece letter + disambiguation + destination names this move and no other legal move -- and it is the standard minimal one: none iff there is no rival (or the mover is a pawn or king), else the file if no rival shares it, else the rank if no rival shares it, else both.  Pieces that merely attack the square but have no legal move there (pinned) are not rivals.
-//@ assumes: callee contract of Game::moves() (C01: duplicate-free list of the legal moves; every listed move starts on an occupied square); list length bound 5; table lookups == geometry (C07)
+//@ note: for every board, every duplicate-free move list of up to 5 moves (every mover square occupied) and every listed move: with RIVALS = the other listed moves of the same piece kind to the same square, the chosen disambiguation (none / file / rank / both) matches NO rival -- so piece letter + disambiguation + destination names this move and no other -- and it is the standard minimal one: none iff there is no rival (or the mover is a pawn or king), else the file if no rival shares it, else the rank if no rival shares it, else both
+//@ assumes: callee contract of game.moves() (C01: duplicate-free list of legal moves; every listed move starts on an occupied square); list length bound 5
 #[kani::proof]
-#[kani::unwind(10)]
-#[kani::stub(crate::chess::game::Game::moves, moves_contract)]
-//@@stubs-tables
+#[kani::unwind(8)]
 fn vk_c18_disambiguation_minimal() {
     let mb = sym::any_mailbox();
-    let game = symgame::game_with_board(sym::board_of(&mb));
     let n: usize = kani::any();
     kani::assume(1 <= n && n <= LIST_N);
-    let mut list = [DUMMY; LIST_N];
+    let dummy = Move::quiet(Square::from_index(0), Square::from_index(1));
+    let mut list = [dummy; LIST_N];
     let mut i = 0;
     while i < LIST_N {
         if i < n {
             let (s, d) = (geo::any_square(), geo::any_square());
-            // legal moves are made by the side to move, never onto an own piece
-            kani::assume(s != d && matches!(mb[s.array_idx()], Some(p) if p.player == game.player));
-            kani::assume(!matches!(mb[d.array_idx()], Some(p) if p.player == game.player));
-            list[i] = if mb[d.array_idx()].is_some() { Move::capture(s, d) } else { Move::quiet(s, d) };
+            kani::assume(s != d && mb[s.array_idx()].is_some());
+            list[i] = if kani::any() { Move::quiet(s, d) } else { Move::capture(s, d) };
             let mut j = 0;
             while j < i {
                 kani::assume(list[j] != list[i]);
@@ -63,15 +63,12 @@ fn vk_c18_disambiguation_minimal() {
         }
         i += 1;
     }
-    unsafe {
-        LEGAL = list;
-        LEGAL_N = n;
-    }
+    let game = Game { board: sym::board_of(&mb), player: geo::any_player(), list, n };
     let k: usize = kani::any();
     kani::assume(k < n);
     let mv = list[k];
     let kind = mb[mv.src().array_idx()].unwrap().kind;
-    let got = required_ambiguity_resolution(&game, mv);
+    let got = required_ambiguity_resolution__body(&game, mv);
     // rivals
     let (mut any_rival, mut rival_same_file, mut rival_same_rank) = (false, false, false);
     let mut i = 0;
@@ -99,5 +96,4 @@ fn vk_c18_disambiguation_minimal() {
     kani::cover!(any_rival && !rival_same_file && !rival_same_rank && kind == PieceKind::Knight);
     kani::cover!(want == AmbiguityResolution::Exact);
     assert!(got == want);
-    std::mem::forget(game);
 }
